@@ -19,6 +19,8 @@ type IntsBuilder struct {
 	FinalAppsMap syslutil.StrSet
 	Deps         syslutil.StrSet
 	DepsOut      []AppDependency
+	// walked holds the pass-through endpoints whose calls have been followed already.
+	walked syslutil.StrSet
 }
 
 func sortedSlice(endpts map[string]*sysl.Endpoint) []string {
@@ -138,6 +140,16 @@ func (b *IntsBuilder) MyCallers(sourceApp, epname string, t *sysl.Statement) {
 
 func (b *IntsBuilder) WalkPassthrough(appname, epname string) {
 	if b.Passthroughs.Contains(appname) {
+		// Follow the calls of a pass-through endpoint once only: pass-through applications that call each other in a
+		// cycle would otherwise be walked forever.
+		key := appname + " <- " + epname
+		if b.walked == nil {
+			b.walked = syslutil.StrSet{}
+		}
+		if b.walked.Contains(key) {
+			return
+		}
+		b.walked.Insert(key)
 		endpt := b.M.GetApps()[appname].GetEndpoints()[epname]
 		ProcessCalls(appname, epname, endpt.GetStmt(), b.ProcessExcludeAndPassthrough)
 	}
